@@ -15,6 +15,7 @@ CONSTANTS
     OpComps,      \* components the operations range over
     OpKinds,      \* subset of {"spawn","despawn","mark","unmark","insert","remove","mutate","setvis","timeout"}
     SettleRounds, \* perfect-link rounds of the settle phase
+    Graphs,       \* number of relation graphs the server maintains (0 unless relations are modelled)
     Emit          \* TRUE: print every settled behaviour as JSON for replay
 
 VARIABLES st, g, b, hist
@@ -25,6 +26,9 @@ ImplF1  == [ImplDesigned EXCEPT !.ackOnReceipt = TRUE]
 ImplF2  == [ImplDesigned EXCEPT !.noLostDespawnHidden = TRUE]
 ImplF3  == [ImplDesigned EXCEPT !.staleRemovalOnDespawn = TRUE]
 ImplF4  == [ImplDesigned EXCEPT !.periodicAckSwallow = TRUE]
+ImplF18 == [ImplDesigned EXCEPT !.periodicBumpSwallow = TRUE]
+ImplF19 == [ImplDesigned EXCEPT !.ackDiscarded = TRUE]
+ImplLeak == [ImplDesigned EXCEPT !.seedLeakHidden = TRUE]
 ImplF9  == [ImplDesigned EXCEPT !.removalOverwrite = TRUE]
 ImplF11 == [ImplDesigned EXCEPT !.emptyMutateWithGraphs = TRUE]
 ImplF14 == [ImplDesigned EXCEPT !.whiteReAddForgetsLost = TRUE]
@@ -36,14 +40,18 @@ BInit == [ops |-> 0, ticks |-> 0, idle |-> 0, cframes |-> 0, phase |-> "run"]
 
 Rec(ev, args) == [ev |-> ev, args |-> args]
 
+\* server frame with the canonical split of mutate messages
+FrameR(s, doTick, dt) == SrvFrameR(s, doTick, dt, <<>>, Graphs)
+Frame(s, doTick, dt) == Then(FrameR(s, doTick, dt), LAMBDA r : r.st)
+
 Init0 ==
-    LET s1 == SrvFrameCanon(InitState, FALSE, 0)   \* warm-up frame: first replication run, tick 0, no clients
+    LET s1 == Frame(InitState, FALSE, 0)   \* warm-up frame: first replication run, tick 0, no clients
         s2 == FoldSet(ConnectF, s1, Client)
     IN s2
 
 Init ==
     /\ st = Init0
-    /\ g = GhostSnap(GhostInit, SrvFrameCanon(InitState, FALSE, 0))
+    /\ g = GhostSnap(GhostInit, Frame(InitState, FALSE, 0))
     /\ b = BInit
     /\ hist = <<>>
 
@@ -85,7 +93,7 @@ SrvFrame(doTick, dt) ==
     /\ IF doTick THEN b.ticks < MaxTicks /\ b' = [b EXCEPT !.ticks = @ + 1]
                  ELSE b.idle < MaxIdle /\ b' = [b EXCEPT !.idle = @ + 1]
     /\ dt > 0 => "timeout" \in OpKinds
-    /\ \E r \in {SrvFrameCanonR(st, doTick, dt)} :
+    /\ \E r \in {FrameR(st, doTick, dt)} :
           /\ st' = r.st
           /\ g' = IF r.ran THEN GhostSnap(g, r.st) ELSE g
     /\ Log("SrvFrame", [tick |-> doTick, dt |-> dt])
@@ -121,7 +129,7 @@ ClientRound(s, c) ==
 
 \* one round: ticking server frame, then every client catches up and acknowledges
 Round(p) ==
-    Then(SrvFrameCanon(p.st, TRUE, 0), LAMBDA s1 :
+    Then(Frame(p.st, TRUE, 0), LAMBDA s1 :
         [st |-> FoldSet(ClientRound, s1, Client), g |-> GhostSnap(p.g, s1)])
 
 RECURSIVE Rounds(_, _)
@@ -129,8 +137,8 @@ Rounds(p, n) == IF n = 0 THEN p ELSE Then(Round(p), LAMBDA q : Rounds(q, n - 1))
 
 SettleResult(s, gg) ==
     Then(Rounds([st |-> s, g |-> gg], SettleRounds), LAMBDA p :
-    Then(SrvFrameCanon(p.st, FALSE, 0), LAMBDA s2 :          \* the acknowledgements of the last round arrive
-    Then(SrvFrameCanon(s2, TRUE, 0), LAMBDA s3 :             \* one more tick at rest
+    Then(Frame(p.st, FALSE, 0), LAMBDA s2 :          \* the acknowledgements of the last round arrive
+    Then(Frame(s2, TRUE, 0), LAMBDA s3 :             \* one more tick at rest
         LET n(c) == Len(s3.net[c].upd) + Len(s3.net[c].mut) - Len(s2.net[c].upd) - Len(s2.net[c].mut)
             sent == FoldSet(LAMBDA a, c : a + n(c), 0, Client)
         IN [st |-> s2, g |-> [p.g EXCEPT !.sentAtRest = sent]])))
